@@ -372,7 +372,9 @@ func IsSameWorkloadRefGVKName(a, b *appsv1beta1.ObjectRef) bool {
 	if a == nil || b == nil {
 		return false
 	}
-	return reflect.DeepEqual(a, b)
+	// the version segment of apiVersion only selects a representation of the same object
+	// (e.g. apps.kruise.io/v1alpha1 and apps.kruise.io/v1beta1 StatefulSet), and the controllers ignore it
+	return schema.FromAPIVersionAndKind(a.APIVersion, a.Kind).GroupKind() == schema.FromAPIVersionAndKind(b.APIVersion, b.Kind).GroupKind() && a.Name == b.Name
 }
 
 var _ inject.Client = &RolloutCreateUpdateHandler{}
